@@ -546,6 +546,16 @@ DecPubChecks(e) ==
           Chk("C11", "ed25519_parser_accepts_exactly_valid_keys", (e.ed # <<>>) = F.ed_valid),
           Chk("C10", "node_id_of_parsed_ed25519_key", e.ed # <<>> => (e.ed[1].enc = e.bytes /\ e.ed[1].nid = F.ed_nid))>>
 
+\* the verification primitive of every public-key type: true exactly for a 64-byte (low-S for ECDSA) signature that
+\* is mathematically a signature of the message under that key
+VerifyRawChecks(e) ==
+  LET want == IF e.scheme = "secp" THEN Len(e.sig) = 64 /\ LowS(e.sig) /\ e.sm ELSE Len(e.sig) = 64 /\ e.sm
+      kts == DOMAIN e.outs
+  IN <<Chk("C03", "verify_panics", e.panics = <<>>),
+       Chk("TOOL", "sig_oracles_agree", e.sm = e.sm2),
+       Chk("C01", "verify_v4_is_the_v4_rule", \A kt \in kts : e.outs[kt] = <<want>>),
+       Chk("C11", "verify_v4_same_on_every_key_type", \A a, b \in kts : e.outs[a] = e.outs[b])>>
+
 KeyGenChecks(e) ==
   <<Chk("C03", "keygen_panics", e.panics = <<>>),
     Chk("C17", "generated_secret_is_valid", IF e.scheme = "secp" THEN ValidScalar(e.export) ELSE Len(e.export) = 32),
@@ -573,6 +583,7 @@ ChecksOf(e) ==
     [] e.t = "pubkey"    -> PubKeyChecks(e)
     [] e.t = "keygen"    -> KeyGenChecks(e)
     [] e.t = "decpub"    -> DecPubChecks(e)
+    [] e.t = "verifyraw" -> VerifyRawChecks(e)
     [] OTHER             -> <<>>
 
 Bind(rs, h, c) == IF h = "" THEN rs ELSE (h :> c) @@ rs
